@@ -107,8 +107,19 @@ def run(prog, rep):
                     v = guards.lookup(st, tp)
                     if v is not None:
                         cases.setdefault(v, {})[l["field"]] = fn_of_ref(n["r"])
+                    else:
+                        row_stores.append((l["field"], n["r"]))
         return [guards.transfer(st, stmt)]
+    row_stores = []
     Flow(nw, [guards.EMPTY], on_slot, lambda st, b, to, on: guards.edge_assume(st, b, on)).run()
+    if not cases and row_stores:
+        # table-driven form: the triple is copied from the row of a constant table selected by the (range-checked) type
+        from plint.wiring import table_item
+        for (name, val) in enum:
+            for (fld, rhs) in row_stores:
+                it = table_item(nw, tu, rhs, tp, val)
+                if it is not None:
+                    cases.setdefault(val, {})[fld] = fn_of_ref(it)
     if not cases:
         raise AnalysisBroken("p_tree_new_full: no store into the insert/remove/free slots under a known tree type")
     for (name, val) in enum:
@@ -425,8 +436,14 @@ def run(prog, rep):
         # (c) slot owner bookkeeping in insert (variants with parent links)
         if tag != "bst":
             fn = tree_view(u.fn("p_tree_%s_insert" % tag))
-            takes = [(b, i, n) for (b, i, n) in fn.stmts() if n["k"] == "asg" and strip_casts(n["r"]) is not None and strip_casts(n["r"])["k"] == "un" and strip_casts(n["r"])["op"] == "&"
-                     and field_of(strip_casts(n["r"])["e"]) in ("left", "right")]
+            # steps into a child slot: `slot = &node->left`, also as the arms of `slot = (c < 0) ? &node->left : &node->right`
+            takes = []
+            for (b, i, n) in fn.stmts():
+                if n["k"] != "asg":
+                    continue
+                for m_ in walk(n["r"], elsewhere=True):
+                    if m_["k"] == "un" and m_.get("op") == "&" and field_of(m_["e"]) in ("left", "right"):
+                        takes.append((b, i, n, m_))
             pstores = [n for (b, i, n) in fn.nodes() if n["k"] == "asg" and field_of(n["l"]) == "parent"]
             oko, msg = bool(takes) and len(pstores) == 1, "no slot step / parent store found"
             owner = None
@@ -436,11 +453,31 @@ def run(prog, rep):
                 if owner is None:
                     oko, msg = False, "line %d: the new node's parent link is %s, not the recorded owner of the slot" % (line(pstores[0]), show(pstores[0]["r"]))
             if oko:
-                for (b, i, n) in takes:
+                owners = set(fn.copies_of(owner))
+                grew_ = True
+                while grew_:          # ... and the variables whose value is handed to it (`*parent = link_parent;` at the end of a helper)
+                    grew_ = False
+                    for (b_, i_, n_) in fn.nodes(elsewhere=True):
+                        if n_["k"] == "asg" and n_["op"] == "=" and strip_casts(n_["l"]) is not None and strip_casts(n_["l"])["k"] == "ref" and strip_casts(n_["l"])["name"] in owners:
+                            r_ = strip_casts(n_["r"])
+                            if r_ is not None and r_["k"] == "ref" and r_.get("decl") == "local" and r_["name"] not in owners:
+                                owners.add(r_["name"])
+                                grew_ = True
+                for (b, i, n, addr_) in takes:
                     slotv = root_var(n["l"])
-                    inner = strip_casts(strip_casts(n["r"])["e"])           # member(left|right) of base
+                    inner = strip_casts(addr_["e"])           # member(left|right) of base
                     node_expr = guards.key(inner["base"])
-                    prev = [s_ for s_ in b.stmts[:i] if s_["k"] == "asg" and strip_casts(s_["l"])["k"] == "ref" and owner in fn.copies_of(strip_casts(s_["l"])["name"])]
+                    # the latest store into the owner variable that every path to this step passes (same block before it, or a dominating block)
+                    prev = [s_ for s_ in b.stmts[:i] if s_["k"] == "asg" and strip_casts(s_["l"])["k"] == "ref" and strip_casts(s_["l"])["name"] in owners]
+                    if not prev:
+                        doms = [(b2, i2, s_) for (b2, i2, s_) in fn.stmts() if s_["k"] == "asg" and strip_casts(s_["l"]) is not None and strip_casts(s_["l"])["k"] == "ref"
+                                and strip_casts(s_["l"])["name"] in owners and b2.id != b.id and fn.dominates(b2.id, b.id) and any(b2.id in body and b.id in body for (h, body) in fn.loops())]
+                        if doms:
+                            last = doms[0]
+                            for d_ in doms[1:]:
+                                if fn.pos_dominates((last[0].id, last[1]), (d_[0].id, d_[1])):
+                                    last = d_
+                            prev = [last[2]]
                     if not prev or guards.key(prev[-1]["r"]) != node_expr:
                         oko, msg = False, "line %d: the descent steps into a child slot of %s without recording that node in %s: the new node's parent link will name another node" % (
                             line(n), node_expr, owner)
